@@ -393,7 +393,28 @@ func runC20(c *fw.Ctx, idx int) {
 	var root, tmpl interface{}
 	var desc string
 	var cyc, shared bool
-	if famB {
+	if idx >= 6 && idx%40 == 7 {
+		// a deep chain: L nodes nested through P (one container per level, within the default depth limit of 1000), every node
+		// also referenced from its successor, so every level of the nesting is a marked (shared) container; optionally closed into a ring
+		L := 300 + c.Rng.Intn(650)
+		nodes := make([]*c20N, L)
+		for i := range nodes {
+			nodes[i] = &c20N{V: i}
+		}
+		for i := 0; i+1 < L; i++ {
+			nodes[i].P = nodes[i+1]
+			nodes[i+1].S = []*c20N{nodes[i]}
+		}
+		desc = fmt.Sprintf("deep-doubly-linked-chain L=%d", L)
+		if c.Rng.Intn(2) == 0 {
+			nodes[L-1].P = nodes[0]
+			desc += " ring"
+		}
+		n = L
+		root, cyc, shared, tmpl = nodes[0], true, true, (*c20N)(nil)
+		desc = "A:" + desc
+		c.Inc("graphs.deep_chain")
+	} else if famB {
 		r, d, cy, sh := c20BuildB(c, n)
 		root, desc, cyc, shared, tmpl = r, "B:"+d, cy, sh, (*c20B)(nil)
 	} else {
